@@ -367,3 +367,23 @@ Proof.
       intros Hp. exfalso. rewrite kumount_spec, Hk in E.
       rewrite (no_children_top _ _ _ Hp ND Htr Hk Hun) in E. discriminate.
 Qed.
+
+Lemma ku_seq_wf ts : forall ks ok ks' iss, ku_seq ks ts = (ok, ks', iss) ->
+  wf_table (ks_tab ks) = true -> wf_table (ks_tab ks') = true.
+Proof.
+  induction ts as [|t r IH]; intros ks ok ks' iss; cbn [ku_seq].
+  - intros H. injection H as _ <- _. auto.
+  - rewrite kumount_spec. destruct (top_at (ks_tab ks) t) as [k|].
+    2:{ intros H. injection H as _ <- _. auto. }
+    destruct (no_children (ks_tab ks) k).
+    2:{ intros H. injection H as _ <- _. auto. }
+    destruct (ku_seq _ r) as [[ok1 k2] iss1] eqn:E. intros H. injection H as _ <- _. intros Hwf.
+    eapply IH; [exact E|]. cbn [ks_tab]. unfold wf_table, remove_id in *.
+    rewrite forallb_forall in *. intros x Hx. apply filter_In in Hx as [Hx _]. auto.
+Qed.
+
+Lemma ku_seq_nonempty ts ks ok ks' iss : ts <> [] -> ku_seq ks ts = (ok, ks', iss) -> iss <> [].
+Proof.
+  destruct ts as [|t r]; [congruence|]. intros _. cbn [ku_seq].
+  destruct (kumount ks t 0); [destruct (ku_seq _ r) as [[? ?] ?]|]; intros H; injection H as _ _ <-; discriminate.
+Qed.
